@@ -12,6 +12,7 @@ package c10
 import (
 	"os"
 	"testing"
+	"time"
 
 	"verif/mc/ev"
 )
@@ -20,15 +21,22 @@ func TestCheck(t *testing.T) {
 	r := ev.Start("C10", "exploration")
 	r.SetBudget(ev.Pick(r, 140, 1500))
 	only := os.Getenv("C10_ONLY")
-	if only == "" || only == "member" {
-		runMembership(r)
-	}
-	if only == "" || only == "range" {
-		runRange(r)
-	}
+	// cheapest and closest to production first; the membership enumeration is the one a deadline may cut
+	t0 := time.Now()
 	if only == "" || only == "rpc" {
 		runRPC(r)
 	}
+	r.Set("seconds_rpc", time.Since(t0).Seconds())
+	t0 = time.Now()
+	if only == "" || only == "range" {
+		runRange(r)
+	}
+	r.Set("seconds_range", time.Since(t0).Seconds())
+	t0 = time.Now()
+	if only == "" || only == "member" {
+		runMembership(r)
+	}
+	r.Set("seconds_membership", time.Since(t0).Seconds())
 	r.Set("rule", "one evaluation = one run of a verifier (juno's or the independent one) on one (root,key,node set); non-trivial = distinct honest-proof walk shapes x corruption classes x verdict combinations")
 	r.Set("distinct_nontrivial", r.Get("honest_proof_walk_shapes")+r.Get("range_outcome_kinds")+r.Get("rpc_distinct_states"))
 	r.Assume = append(r.Assume,
